@@ -572,7 +572,7 @@ func init() {
 			{name: "enumerated", quick: 2, thorough: 60, enumKinds: 5, enumPos: 6, enumBases: 60},
 			{name: "enumerated-resume", params: map[string]string{"resume": "1"}, quick: 6, thorough: 80, enumKinds: 5, enumPos: 6, enumBases: 80},
 			{name: "bitflips", params: map[string]string{"resume": "1"}, quick: 2, thorough: 12, enumKinds: 1, enumDense: 160, enumBases: 12}},
-		rule:    "each evaluation is one simulated transfer (1-3 small files, protocols 1-4, base64/binary/compressed/escaped, resume with hash exchange) in which 1-3 byte-level faults (bit flip, deletion, duplication, insertion, truncation) are applied to tape-chosen chunks and positions (biased to the structural bytes of a line) of either direction of one hop; non-trivial = at least one fault actually altered bytes and both roles ended; distinct = distinct (configuration + fault placement class, schedule-trace hash, tape hash)"})
+		rule:    "each evaluation is one simulated transfer (1-3 small files, protocols 1-4, base64/binary/compressed/escaped, resume with hash exchange) in which 1-3 byte-level faults (bit flip, deletion, duplication, insertion, truncation) are applied to tape-chosen chunks and positions (biased to the structural bytes of a line) of either direction of one hop; non-trivial = at least one fault actually altered bytes and both roles ended; distinct = distinct (configuration + fault placement class, schedule-trace hash, tape hash); batches enumerated / enumerated-resume: one run per (write of one hop x fault kind x structural position) of a base scenario; batch bitflips: one run per bit of every byte of each control line (<= 160 bytes) of a resumed transfer"})
 	reg(&propDef{id: "C11", level: "exploration", crashIsViol: false,
 		batches: []batch{{name: "flowfaults", quick: 2600, thorough: 60000},
 			{name: "enumerated", quick: 3, thorough: 80, enumKinds: 13, enumPos: 1, enumBases: 80}},
@@ -585,7 +585,7 @@ func init() {
 		batches: []batch{{name: "fields", quick: 3000, thorough: 120000},
 			{name: "archive", params: map[string]string{"mode": "archive"}, quick: 1500, thorough: 60000},
 			{name: "terminal", params: map[string]string{"mode": "terminal"}, quick: 1200, thorough: 40000}},
-		rule:    "each evaluation is one simulated transfer in which a link rewriter replaces the payload of 1-3 tape-chosen protocol lines sent to the attacked role (server or client) by boundary values: numbers (-1, 0, +-1 of the expected, 2^31, 2^62, 2^63-1, non-numeric, oversized), broken base64/zlib, truncated or wrongly typed JSON, hostile known fields; with and without a progress display, terminal widths 6-80; oracles: no panic/fatal error in any goroutine (a crash of the worker process is attributed to the run and re-executed), allocation during the run <= 64 MiB + 16 x bytes moved, both roles end, no percentage outside 0..100 on the terminal, and a transparency probe in both directions passes afterwards; non-trivial = an edit fired and all oracles ran; distinct = distinct (configuration + attacked role, schedule-trace hash, tape hash)"})
+		rule:    "each evaluation is one simulated transfer in which a link rewriter replaces the payload of 1-3 tape-chosen protocol lines sent to the attacked role (server or client) by boundary values: numbers (-1, 0, +-1 of the expected, 2^31, 2^62, 2^63-1, non-numeric, oversized), broken base64/zlib, truncated or wrongly typed JSON, hostile known fields; with and without a progress display, terminal widths 6-80; oracles: no panic/fatal error in any goroutine (a crash of the worker process is attributed to the run and re-executed), allocation during the run <= 64 MiB + 16 x bytes moved, both roles end, no percentage outside 0..100 on the terminal, and a transparency probe in both directions passes afterwards; batch archive: hostile archive entry headers written to the real archive writer in tape-chosen segments; batch terminal: hostile terminal output in front of the idle client with the read boundary at tape-chosen or at every position; non-trivial = an edit fired (a hostile entry / read was fed) and all oracles ran; distinct = distinct (configuration + attacked role, schedule-trace hash, tape hash)"})
 	reg(&propDef{id: "C10", level: "exploration", crashIsViol: false,
 		batches: []batch{{name: "stops", quick: 2400, thorough: 60000},
 			{name: "enumerated", quick: 4, thorough: 120, enumKinds: 6, enumPos: 1, enumBases: 120}},
